@@ -4,7 +4,7 @@
    of the stream into feeds and every call schedule. *)
 From MptV Require Import Base.Mem Base.Tactics C13.QueueModel Cobs.CobsModel Cobs.DecModel Cobs.EncProofs
   Cobs.EncTheorems Cobs.DecProofs Cobs.DecComplete Cobs.DecCall Cobs.DecHistory Cobs.StreamProofs
-  Cobs.QueueCodec Cobs.WriterHistory.
+  Cobs.QueueCodec Cobs.WriterHistory Cobs.ReaderHistory.
 Local Open Scope nat_scope.
 
 (* the frames at the front of a stream are found by cutting at the delimiters *)
@@ -51,6 +51,21 @@ Proof.
   intros Hv Ho Hrun Hc Hs st0 buf0 rops n Hci Hin rs.
   pose proof (writer_history_stream v wbuf woff wops ws Hv Ho Hrun Hc Hs) as HW.
   destruct (dec_history_delivers v st0 buf0 rops Hci) as (C & rest & HI & HC). fold rs in HC.
+  apply (frames_prefix v _ _ _ C (rest ++ skipn n (wh_sent ws ++ contents (eq_q (wh_e ws)))) HW HC).
+  rewrite app_assoc, <- HI, Hin. symmetry. apply firstn_skipn.
+Qed.
+
+(* ring-level writer, ring-level reader (until the reader's decoder reports an error) *)
+Theorem ring_to_ring v wbuf woff wops ws : variant_ok v -> woff < length wbuf ->
+  wh_run v (wh_init wbuf woff) wops = Some ws -> wh_cur ws = [] -> escr (eq_st (wh_e ws)) = 0 ->
+  forall rbuf roff rops n, roff <= length rbuf ->
+    let rs := rh_run v (rh_init rbuf roff) rops in
+    rh_in rs = firstn n (wh_sent ws ++ contents (eq_q (wh_e ws))) ->
+    rh_msgs rs = firstn (length (rh_msgs rs)) (wh_done ws).
+Proof.
+  intros Hv Ho Hrun Hc Hs rbuf roff rops n Hro rs Hin.
+  pose proof (writer_history_stream v wbuf woff wops ws Hv Ho Hrun Hc Hs) as HW.
+  destruct (reader_history_delivers v rbuf roff rops Hro) as (C & rest & HI & HC). fold rs in HI, HC.
   apply (frames_prefix v _ _ _ C (rest ++ skipn n (wh_sent ws ++ contents (eq_q (wh_e ws)))) HW HC).
   rewrite app_assoc, <- HI, Hin. symmetry. apply firstn_skipn.
 Qed.
